@@ -25,6 +25,9 @@ use std::time::Duration;
 
 pub const PROP: &str = "C12";
 pub const NETWORK: Network = Network::Testnet;
+/// how many of the most recently used channels are queried at each comparison (all channels are
+/// covered by the encoding comparisons)
+const OBSERVED: usize = 10;
 
 pub struct Sink;
 impl Logger for Sink {
@@ -213,6 +216,8 @@ pub struct World {
 	inter: u64,
 	roundtrips: u64,
 	updates: u64,
+	/// channels most recently used by an action, most recent first
+	touched: Vec<usize>,
 }
 
 fn decay_of(cfg: &Config) -> ProbabilisticScoringDecayParameters {
@@ -377,6 +382,7 @@ impl World {
 			inter: fnv(b"i"),
 			roundtrips: 0,
 			updates: 0,
+			touched: Vec::new(),
 			cfg,
 		};
 		for c in 0..n {
@@ -462,6 +468,12 @@ impl World {
 		}
 	}
 
+	fn touch(&mut self, c: usize) {
+		self.touched.retain(|t| *t != c);
+		self.touched.insert(0, c);
+		self.touched.truncate(OBSERVED * 2);
+	}
+
 	fn path_of(&self, hops: &[Hop], amt: u64) -> Option<Path> {
 		if hops.is_empty() || hops.len() > 8 {
 			return None;
@@ -490,7 +502,7 @@ impl World {
 			let mut v = Vec::new();
 			let ro = graph.read_only();
 			for (c, ch) in self.cfg.chans.iter().enumerate() {
-				if !self.ever_added[c] {
+				if !self.ever_added[c] || !(c == 0 || self.touched.iter().take(OBSERVED).any(|t| *t == c)) {
 					continue;
 				}
 				for to_b in [true, false] {
@@ -509,7 +521,7 @@ impl World {
 						Some((d, _)) => d.effective_capacity().as_msat(),
 						None => ch.hmax_msat[0],
 					};
-					let amts = [1_000u64, cap / 4, cap / 2 + 1, cap.saturating_sub(1), cap.saturating_add(1)];
+					let amts = [1_000u64, cap / 3, cap.saturating_sub(1), cap.saturating_add(1)];
 					for a in amts.iter() {
 						for p in self.params.iter() {
 							o.probs.push(s.live_estimated_payment_success_probability(ch.scid, &target, *a, p).map(f64::to_bits));
@@ -621,7 +633,38 @@ impl World {
 				return false;
 			},
 		};
+		let main_enc = match catch(|| self.main.encode()) {
+			Ok(b) => canonical_entries(&b),
+			Err(e) => {
+				self.lib_panic("write", e);
+				return false;
+			},
+		};
 		for i in 0..self.followers.len() {
+			match catch(|| self.followers[i].s.encode()) {
+				Ok(b) => {
+					let fe = canonical_entries(&b);
+					if fe != main_enc {
+						let born = self.followers[i].born;
+						let d = match (&main_enc, &fe) {
+							(Some(a), Some(b)) => a
+								.iter()
+								.zip(b.iter())
+								.find(|(x, y)| x != y)
+								.map(|(x, y)| format!("scid {}: {} vs scid {}: {}", x.0, simcore::hex(&x.1), y.0, simcore::hex(&y.1)))
+								.unwrap_or_else(|| format!("{} vs {} entries", a.len(), b.len())),
+							_ => "unparseable".into(),
+						};
+						self.out.bump("oracle:C12-e4 lockstep");
+						self.fail("C12-e4 lockstep", format!("copy read at step {} diverged: encodings differ: {}", born, d));
+						return false;
+					}
+				},
+				Err(e) => {
+					self.lib_panic("write of a copy", e);
+					return false;
+				},
+			}
 			let fo = match self.observe(self.followers[i].s.persisted()) {
 				Ok(o) => o,
 				Err(e) => {
@@ -635,7 +678,22 @@ impl World {
 			}
 		}
 		for o in main_obs.iter() {
-			self.hist = fnv_extend(self.hist, format!("{:?}", o).as_bytes());
+			let mut h = self.hist;
+			if let Some(r) = o.range {
+				h = fnv_extend(fnv_extend(h, &r.0.to_le_bytes()), &r.1.to_le_bytes());
+			}
+			if let Some(b) = o.hist {
+				for x in b.0.iter().chain(b.1.iter()) {
+					h = fnv_extend(h, &x.to_le_bytes());
+				}
+			}
+			for p in o.probs.iter() {
+				h = fnv_extend(h, &p.unwrap_or(7).to_le_bytes());
+			}
+			for p in o.penalties.iter().chain(o.diversity.iter()) {
+				h = fnv_extend(h, &p.to_le_bytes());
+			}
+			self.hist = h;
 		}
 		if self.out.state_fps.len() < 4096 {
 			let mut h = fnv(b"s");
@@ -739,11 +797,15 @@ impl World {
 		if self.cfg.replace && !self.cfg.combined {
 			// the copy becomes the scorer in use; the old original follows (same comparison, swapped)
 			let old = std::mem::replace(&mut self.main, sub);
+			// the scorer in use now has the read-back notion of "now": nobody is in sync with it
+			for f in self.followers.iter_mut() {
+				f.synced = false;
+			}
 			self.followers.push(Follower { s: old, synced: false, born: self.step });
 		} else {
 			self.followers.push(Follower { s: sub, synced: false, born: self.step });
 		}
-		if self.followers.len() > 3 {
+		if self.followers.len() > 2 {
 			self.followers.remove(0);
 		}
 	}
@@ -849,6 +911,9 @@ impl World {
 						if hops.iter().any(|h| !self.present[h.chan]) {
 							self.out.bump("probe:path_over_removed_channel");
 						}
+						for h in hops.iter() {
+							self.touch(h.chan);
+						}
 						self.update_all(a.kind(), &|s| {
 							if probe {
 								s.probe_failed(&p, scid, now)
@@ -864,6 +929,9 @@ impl World {
 			Action::PathSuccessful { hops, amt_msat } | Action::ProbeSuccessful { hops, amt_msat } => {
 				match self.path_of(hops, *amt_msat) {
 					Some(p) => {
+						for h in hops.iter() {
+							self.touch(h.chan);
+						}
 						let probe = matches!(a, Action::ProbeSuccessful { .. });
 						self.update_all(a.kind(), &|s| {
 							if probe {
@@ -895,6 +963,7 @@ impl World {
 						self.dead = true;
 					}
 					self.present[*chan] = false;
+					self.touch(*chan);
 					true
 				} else {
 					false
@@ -903,6 +972,7 @@ impl World {
 			Action::GraphAdd { chan } => {
 				if *chan < self.present.len() && !self.ever_added[*chan] {
 					self.add_channel(*chan);
+					self.touch(*chan);
 					true
 				} else {
 					false
